@@ -18,7 +18,7 @@ CHECKS = {
         ref="DESIGN.md 2/C02",
     ),
     "C03": dict(
-        text="Runtime monitoring of the state constructors: (a) subsets of the optional State::new inputs (all 2^8 x corruption classes at thorough) with valid / NaN / inf / negative / wrong-length values against a harness re-implementation of the documented determination rule: Ok states echo every supplied input to 1e-13, invalid / over- / under-determined sets are rejected, no panic; (b) deterministic success grid: every record of the Gross-Sadowski collections x T in [0.45,1.65] T_c x p in [1e-4,10] p_c x 3 phase hints must yield a state whose pressure matches (1e-7 rel + solver abs tol); root selection against a 400-point density scan (lowest Gibbs energy without hint, hinted branch when both exist); (c) 3e3 / 1.5e5 random (T,p,initial density) over the model zoo: pressure reproduced whenever Ok, with the hook trace marking executions whose density loop was exhausted; (d) (p,h),(p,s),(T,h),(T,s),(V,u) targets generated from reachable states with perturbed initial temperature/density: target reproduced to solver tolerance and p/T/V echoed whenever Ok.",
+        text="Runtime monitoring of the state constructors: (a) subsets of the optional State::new inputs (all 2^8 x corruption classes at thorough) with valid / NaN / inf / negative / wrong-length values against a harness re-implementation of the documented determination rule: Ok states echo every supplied input to 1e-13, invalid / over- / under-determined sets are rejected, no panic; (b) deterministic success grid: every record of the Gross-Sadowski collections x T in [0.45,1.65] T_c x p in [1e-4,10] p_c x 3 phase hints must yield a state whose pressure matches (1e-7 rel + solver abs tol); root selection against a 400-point density scan (lowest Gibbs energy without hint, hinted branch when both exist); (c) 3e3 / 1.5e5 random (T,p,initial density) over the model zoo: pressure reproduced whenever Ok, with the hook trace marking executions whose density loop was exhausted; (d) (p,h),(p,s),(T,h),(T,s),(V,u) targets generated from reachable states with perturbed initial temperature/density: target reproduced to solver tolerance and p/T/V echoed whenever Ok. The 2^8 input subsets are enumerated exhaustively in both tiers (6 / 16 random value sets and corruption classes each).",
         note="The re-implemented determination rule (echo_expect) is the reference for Ok/Err classification. Solver tolerances (density iteration abs 1e-12, Newton wrappers atol/rtol on the iterate) enter the oracles explicitly.",
         technique="reference-model monitor (documented determination rule) + relational oracle on every returned state + trace specification over density-iteration exit events",
         ref="DESIGN.md 2/C03",
@@ -30,7 +30,7 @@ CHECKS = {
         ref="DESIGN.md 2/C04",
     ),
     "C05": dict(
-        text="Runtime monitoring of bubble_point / dew_point / tp_flash and the binary diagrams: deterministic success grid (all pairs of shipped PC-SAFT hydrocarbon records with T_c ratio < 1.5 at thorough, every 12th at quick) x T in {0.65,..,0.9} T_c,low x x in {0.05,..,0.95}: bubble, dew and a flash at (p_bub+p_dew)/2 must be found (14 long-alkane + ring pairs whose flash fails today are KNOWN-FINDING F24); on every returned equilibrium, also for random zoo mixtures (PC-SAFT incl. associating/polar, gc-PC-SAFT, SAFT-VR Mie, PR; binaries/ternaries, random k_ij, random guesses, starved and loose solver options, first flash initialisation disabled by a failpoint): equal T (exact), equal p, equal chemical potentials (1e-5 kT), phases not copies, flash component balance 1e-12 and specified T,p, specified composition kept 1e-13, p_bub >= p_dew for stable saturated phases, hook trace 'Ok only after a converged event'; binary_vle, bubble/dew lines state by state and without panics. Collapsed ideal-gas pseudo-equilibria are KNOWN-FINDING F28.",
+        text="Runtime monitoring of bubble_point / dew_point / tp_flash and the binary diagrams: deterministic success grid (all pairs of shipped PC-SAFT hydrocarbon records with T_c ratio < 1.5 at thorough, every 12th at quick) x T in {0.65,..,0.9} T_c,low x x in {0.05,..,0.95}: bubble, dew and a flash at (p_bub+p_dew)/2 must be found (14 long-alkane + ring pairs whose flash fails today are KNOWN-FINDING F24); on every returned equilibrium, also for random zoo mixtures (PC-SAFT incl. associating/polar, gc-PC-SAFT, SAFT-VR Mie, PR; binaries/ternaries, random k_ij, random guesses, starved and loose solver options, first flash initialisation disabled by a failpoint): equal T (exact), equal p, equal chemical potentials (1e-5 kT), phases not copies, flash component balance 1e-12 and specified T,p, specified composition kept 1e-13, p_bub >= p_dew for stable saturated phases, hook trace 'Ok only after a converged event'; binary_vle, bubble/dew lines state by state and without panics. Collapsed ideal-gas pseudo-equilibria are KNOWN-FINDING F28. Three-phase part: heteroazeotropes of water + 1-butanol/1-pentanol/1-hexanol and water + hydrocarbons (random k_ij) at given temperature and at given pressure - one temperature (exact), one pressure, specified pressure reproduced, isofugacity in all three phases, no two phases identical; every state of binary_vlle diagrams (VLE branches and LLE branch) at the specified T or p; liquid-liquid flashes started from an equilibrium of another temperature keep their own T and p.",
         note="Isofugacity is evaluated as equality of mu_res/kT + ln rho_i, which does not involve the (possibly vanishing) pressure. Phases count as copies below the library's own 1e-5 threshold.",
         technique="exhaustive enumeration of a finite success grid + relational oracle on every converged execution + trace specification over solver events + fault injection (failpoint on the first flash initialisation, starved options)",
         ref="DESIGN.md 2/C05",
@@ -42,7 +42,7 @@ CHECKS = {
         ref="DESIGN.md 2/C06",
     ),
     "C07": dict(
-        text="Runtime monitoring of State::stability_analysis / is_stable: every returned trial phase has a strictly negative tangent-plane distance recomputed in the harness from ln phi and mole fractions, at the temperature and pressure of the analysed state; for binary PC-SAFT hydrocarbon pairs (T_c ratio < 1.8, T in [0.6,0.95] T_c,low, random compositions): feeds at 2/50/98 % between dew and bubble pressure (every density root) are reported unstable and tp_flash splits them instead of NoPhaseSplit, feeds 2 % outside the envelope and the phases of converged bubble/dew calculations are reported stable; pure fluids of the shipped collections: states outside the binodal stable, metastable states between binodal and spinodal unstable. Random zoo mixtures contribute trial-phase checks and counted verdicts. Hook events prove that the Newton branch and the Murray regularisation were reached.",
+        text="Runtime monitoring of State::stability_analysis / is_stable: every returned trial phase has a strictly negative tangent-plane distance recomputed in the harness from ln phi and mole fractions, at the temperature and pressure of the analysed state; for binary PC-SAFT hydrocarbon pairs (T_c ratio < 1.8, T in [0.6,0.95] T_c,low, random compositions): feeds at 2/50/98 % between dew and bubble pressure (every density root) are reported unstable and tp_flash splits them instead of NoPhaseSplit, feeds 2 % outside the envelope and the phases of converged bubble/dew calculations are reported stable; pure fluids of the shipped collections: states outside the binodal stable, metastable states between binodal and spinodal unstable. Random zoo mixtures contribute trial-phase checks and counted verdicts. Hook events prove that the Newton branch and the Murray regularisation were reached. Pure edges of the binary models (one mole number exactly zero) outside that component's binodal are stable. A flash of an interior feed that ends in an error is classified with the hook trace: giving up although the stability analysis of the feed returned two trial phases and the second start was never tried is a violation; giving up after all available starts is the recorded Rachford-Rice defect (F24).",
         note="Verdicts on phases that are themselves at equilibrium are judged only beyond the solver tolerance band (|tpd| > 1e-6) and above 1e-5 reduced pressure, where fugacity coefficients are resolvable.",
         technique="relational oracle on executions (independent tangent-plane distance) + metamorphic interior/exterior feeds derived from converged envelopes + hook-event coverage gate",
         ref="DESIGN.md 2/C07",
@@ -60,19 +60,19 @@ CHECKS = {
         ref="DESIGN.md 2/C09",
     ),
     "C10": dict(
-        text="Runtime monitoring of Total = IdealGas + Residual for every selector-taking getter (each selector on a fresh state), residual-API vs selector-API agreement, p_IG = rho R T in SI, ideal mixing of mu^IG, residual properties vanishing like rho at 1e-8..1e-4 rho_max, and c_p^IG from the Helmholtz derivative vs harness closed forms of the Joback polynomial and DIPPR 100/107/127 for every poling2000 record, every gc substance assembled from joback1987 groups and random coefficient sets, T in [150,1500] K, pure and mixtures.",
+        text="Runtime monitoring of Total = IdealGas + Residual for every selector-taking getter (each selector on a fresh state), residual-API vs selector-API agreement, p_IG = rho R T in SI, ideal mixing of mu^IG, residual properties vanishing like rho at 1e-8..1e-4 rho_max, and c_p^IG from the Helmholtz derivative vs harness closed forms of the Joback polynomial and DIPPR 100/107/127 for every poling2000 record, every gc substance assembled from joback1987 groups and random coefficient sets, T in [150,1500] K, pure and mixtures. Third order of the ideal-gas Helmholtz energy: dc_v/dT and d2S/dT2 (IdealGas) against a five-point difference quotient of the closed forms; ideal mixing also at partial densities down to 1e-30 A^-3.",
         note="Closed forms of the published correlations are the reference model (1e-6; the Joback implementation rescales by the ratio of 2014/2019 gas constants). Sum identities 1e-12 relative to |terms|, relaxed at low packing fraction.",
         technique="relational oracle on executions + reference-model monitor (closed-form heat-capacity correlations)",
         ref="DESIGN.md 2/C10",
     ),
     "C11": dict(
-        text="Runtime monitoring of history and schedule independence on executions of the real State cache. (A) Key level, through a hook that addresses one cached derivative: for random models of all 14 EoS families (1-3 components) and random states, every request (Zeroth, First, Second, SecondMixed in both orders, Third over V, T, N_i: 29 requests for a binary) is evaluated first on a fresh state (canonical value); then every sequence of length 1 and 2 (exhaustive), length 3 (exhaustive on half of the <= 2-component states in the thorough tier, sampled otherwise) and random sequences up to length 50 run on fresh states and on clones; every returned value and, after each sequence, every entry present in the cache (including silently stored by-products) is compared with the canonical value; clones must not share the cache. (B) 52 public getters in random histories up to length 50 with clones midway, against first-evaluation values with a measured round-off scale per getter. (C) Thread storms: 2-16 threads on one Arc<State> issue random key/getter programs, a hook before the cache lock perturbs the schedule (yield / spin / sleep); client-side results and the recorded cache-event trace (sequence, thread, key, hit, value) are checked offline: every value canonical, keys that are never by-products bitwise stable, per-thread events identical to that thread's calls; distinct interleavings and thread switches are counted and gated. (D) PhaseDiagram::par_pure vs pure for random (threads 1-16, chunksize, npoints 3-60) over the shipped pure records: same number of states, same order, same values. (E) The same storm and par_pure on feos-core under ThreadSanitizer (-Zsanitizer=thread -Zbuild-std, both tiers) and Miri (-Zmiri-many-seeds, 64 schedules, thorough).",
+        text="Runtime monitoring of history and schedule independence on executions of the real State cache. (A) Key level, through a hook that addresses one cached derivative: for random models of all 14 EoS families (1-3 components) and random states, every request (Zeroth, First, Second, SecondMixed in both orders, Third over V, T, N_i: 29 requests for a binary) is evaluated first on a fresh state (canonical value); then every sequence of length 1 and 2 (exhaustive), length 3 (exhaustive on half of the <= 2-component states in the thorough tier, sampled otherwise) and random sequences up to length 50 run on fresh states and on clones; every returned value and, after each sequence, every entry present in the cache (including silently stored by-products) is compared with the canonical value; clones must not share the cache. (B) 52 public getters in random histories up to length 50 with clones midway, against first-evaluation values with a measured round-off scale per getter. (C) Thread storms: 2-16 threads on one Arc<State> issue random key/getter programs, a hook before the cache lock perturbs the schedule (yield / spin / sleep); client-side results and the recorded cache-event trace (sequence, thread, key, hit, value) are checked offline: every value canonical, keys that are never by-products bitwise stable, per-thread events identical to that thread's calls; distinct interleavings and thread switches are counted and gated. (D) PhaseDiagram::par_pure vs pure for random (threads 1-16, chunksize, npoints 3-60) over the shipped pure records: same number of states, same order, same values. (E) The same storm and par_pure on feos-core under ThreadSanitizer (-Zsanitizer=thread -Zbuild-std, both tiers) and Miri (-Zmiri-many-seeds, 64 schedules, thorough). A state derived by update_temperature from an evaluated state equals a fresh state at the new temperature.",
         note="Values are compared to 1e-10 of a natural scale (by-products come from a different dual-number type and differ in the last bits; measured <= 3e-12), relaxed like 1/x_i for derivatives with respect to trace components. Duplicate computation of a key by two threads is counted, not judged (values unchanged). par_pure drops points for the records of finding F10 (unguided pure solve fails): KNOWN-FINDING. Sanitizer build failures / time-outs are inconclusive, never violations.",
         technique="runtime monitor: reference values from fresh states + offline trace checker over hooked cache events under perturbed thread schedules; ThreadSanitizer and Miri on the concurrent workload",
         ref="DESIGN.md 2/C11",
     ),
     "C12": dict(
-        text="Differential monitoring of guess independence on executions: every must-succeed pure record of the shipped collections at 3 (quick) / 20 (thorough) temperatures, solved at T and at p without guess and guided by an equilibrium up to 0.3 T_c away; PC-SAFT hydrocarbon pairs without liquid-liquid demixing: bubble / dew points with pressure guesses within a factor 3 and none / exact / blurred vapour-composition guesses, flashes restarted from bubble or dew equilibria; every point of PhaseDiagram::pure, binary_vle, bubble_point_line and dew_point_line (random npoints 3..62, random start temperature) against the stand-alone solve at that point; the same pure diagram with the 'given state' and 'ideal gas' initialisations made to fail by failpoints (hook-observed) so every point restarts from the spinodal; Newton-wrapper constructors (p,h), (p,s), (T,s), (T,p) from two different initial temperatures / densities on supercritical states. Guided and unguided solutions compared in T, p, both densities and both compositions (1e-7; 1e-6 where the solver tolerance is on another quantity). Recorded defect: collapse to a near-trivial pair of phases close to the critical point (F33) is KNOWN-FINDING.",
+        text="Differential monitoring of guess independence on executions: every must-succeed pure record of the shipped collections at 3 (quick) / 20 (thorough) temperatures, solved at T and at p without guess and guided by an equilibrium up to 0.3 T_c away; PC-SAFT hydrocarbon pairs without liquid-liquid demixing: bubble / dew points with pressure guesses within a factor 3 and none / exact / blurred vapour-composition guesses, flashes restarted from bubble or dew equilibria; every point of PhaseDiagram::pure, binary_vle, bubble_point_line and dew_point_line (random npoints 3..62, random start temperature) against the stand-alone solve at that point; the same pure diagram with the 'given state' and 'ideal gas' initialisations made to fail by failpoints (hook-observed) so every point restarts from the spinodal; Newton-wrapper constructors (p,h), (p,s), (T,s), (T,p) from two different initial temperatures / densities on supercritical states. Guided and unguided solutions compared in T, p, both densities and both compositions (1e-7; 1e-6 where the solver tolerance is on another quantity). Recorded defect: collapse to a near-trivial pair of phases close to the critical point (F33) is KNOWN-FINDING. Flashes are also started from the bubble-point equilibrium of another temperature (+-5 %).",
         note="A guided call that fails is allowed (statement: 'and converges'). Dew-line points within 3 % of the highest dew temperature are skipped: the dew pressure at given T is two-valued there, so inequality of two solves is not a violation.",
         technique="differential oracle on executions (guided vs unguided solves, diagram points vs stand-alone solves) + fault injection at hooked initialisation stages",
         ref="DESIGN.md 2/C12",
@@ -85,7 +85,7 @@ CHECKS = {
     ),
 
     "C14": dict(
-        text="Runtime monitoring of parameter construction: synthetic JSON collections (shuffled order, binary records in either orientation, colliding identifier strings, every IdentifierOption) queried with every ordered subset up to size 4 through from_json / from_multiple_json for nine model kinds, plus sampled queries on the shipped files: component order = query order, k_ij found in either orientation, default when absent, duplicate/missing queries rejected, behaviour equal to from_records; group contribution (homo PC-SAFT, hetero gc-PC-SAFT, Joback): permutations of the segment list (exhaustive up to 4 segments) give identical parameters and match a harness reference implementation of the documented combining rules; serde round trip of every shipped record of every model type reproduces records() and behaviour.",
+        text="Runtime monitoring of parameter construction: synthetic JSON collections (shuffled order, binary records in either orientation, colliding identifier strings, every IdentifierOption) queried with every ordered subset up to size 4 through from_json / from_multiple_json for nine model kinds, plus sampled queries on the shipped files: component order = query order, k_ij found in either orientation, default when absent, duplicate/missing queries rejected, behaviour equal to from_records; group contribution (homo PC-SAFT, hetero gc-PC-SAFT, Joback): permutations of the segment list (exhaustive up to 4 segments) give identical parameters and match a harness reference implementation of the documented combining rules; serde round trip of every shipped record of every model type reproduces records() and behaviour. Synthetic binary records with association parameters and every site-index pair in 0..3 x 0..3 (PC-SAFT and SAFT-VR Mie) are round-tripped twice through serde.",
         note="Harness reference implementations of the combining rules are trusted; serde_json without float_roundtrip moves numbers by <= 1 ulp, allowed.",
         technique="differential / reference-model oracle on executions of the parameter API over enumerated and seeded queries, repeated to expose hash-order dependence",
         ref="DESIGN.md 2/C14",
@@ -109,7 +109,7 @@ CHECKS = {
         ref="DESIGN.md 2/C17",
     ),
     "C18": dict(
-        text="Runtime monitoring of DFTProfile::solve on planar interfaces (PC-SAFT, PeTS, gc-PC-SAFT, a binary; T in [0.5,0.95] T_c) and slit/spherical/cylindrical pores with random solver chains (picard/anderson/newton, tolerances to 1e-11, log/non-log, tanh/pDGT/previous-solution starts): on every Ok the recomputed Euler-Lagrange residual is below the last stage's tolerance, densities are finite and positive, Ok only after a converged last stage (hook trace), no panic; Picard/Anderson/Newton agree on gamma, N and Omega; ChemicalPotential leaves the bulk unchanged; Moles/TotalMoles are met within the residual bound and a deterministic mini-grid of 12 constrained cases converges. Recorded defects: Anderson bulk drift F29, cylindrical-pore inconsistencies F30/F31.",
+        text="Runtime monitoring of DFTProfile::solve on planar interfaces (PC-SAFT, PeTS, gc-PC-SAFT, a binary; T in [0.5,0.95] T_c) and slit/spherical/cylindrical pores with random solver chains (picard/anderson/newton, tolerances to 1e-11, log/non-log, tanh/pDGT/previous-solution starts): on every Ok the recomputed Euler-Lagrange residual is below the last stage's tolerance, densities are finite and positive, Ok only after a converged last stage (hook trace), no panic; Picard/Anderson/Newton agree on gamma, N and Omega; ChemicalPotential leaves the bulk unchanged; Moles/TotalMoles are met within the residual bound and a deterministic mini-grid of 12 constrained cases converges. Recorded defects: Anderson bulk drift F29, cylindrical-pore inconsistencies F30/F31. The residual norm is computed by the harness from the returned density and bulk residual vectors, not taken from the library.",
         note="The residual is recomputed with the library's own Euler-Lagrange operator (C17 checks that operator). Family agreement restricted to T <= 0.9 T_c and boxes >= 180 A.",
         technique="relational oracle on every converged execution + trace specification over solver-stage events + differential oracle between solver families",
         ref="DESIGN.md 2/C18",
@@ -121,7 +121,7 @@ CHECKS = {
         ref="DESIGN.md 2/C19",
     ),
     "C20": dict(
-        text="Runtime monitoring of entropy-scaling transport properties (all 146 loetgeringlin2018 records, random binaries, SAFT-VRQ Mie with synthetic coefficients): X = X_ref exp(ln X_reduced) (1e-13), correlation vs harness closed form, positive and finite, mixture with vanishing second component -> pure value, equal s_res/m -> equal reduced property; and of the estimator: every data-set type predicts what the wrapped library call returns in the documented unit, model-generated targets give zero relative difference and zero cost for every loss, NaN policy at failed points, Estimator::cost weight normalisation, each robust loss vs sqrt(f^2 rho(r^2/f^2)) over 5e6 residuals of both signs. Recorded defect F22 (negative thermal-conductivity reference for long chains) is KNOWN-FINDING.",
+        text="Runtime monitoring of entropy-scaling transport properties (all 146 loetgeringlin2018 records, random binaries, SAFT-VRQ Mie with synthetic coefficients): X = X_ref exp(ln X_reduced) (1e-13), correlation vs harness closed form, positive and finite, mixture with vanishing second component -> pure value, equal s_res/m -> equal reduced property; and of the estimator: every data-set type predicts what the wrapped library call returns in the documented unit, model-generated targets give zero relative difference and zero cost for every loss, NaN policy at failed points, Estimator::cost weight normalisation, each robust loss vs sqrt(f^2 rho(r^2/f^2)) over 5e6 residuals of both signs. Recorded defect F22 (negative thermal-conductivity reference for long chains) is KNOWN-FINDING. Transport properties, references and reduced properties are independent of the amount of substance ((V,N) scaled by 1e-3, 7.5 and up to one mole).",
         note="Harness closed forms of the correlation polynomial and the losses and harness SI constants are the reference. Loss::Linear is checked as the signed identity (documented as an assumption). PeTS transport is not compiled in feos (impl commented out) and is not covered.",
         technique="reference-model monitor (closed forms, unit conversions) + differential oracle (predict vs wrapped library call) on seeded executions",
         ref="DESIGN.md 2/C20",
